@@ -97,7 +97,75 @@ func runC06(c *kc.Ctx) {
 	}
 }
 
+// c06Histories: the same operand OBJECTS used in several pairings, updated in place in between, and pairing
+// results used as accumulators — Pair is a function of the values of its operands at the time of the call and
+// returns a value of its own.
+func c06Histories(c *kc.Ctx, s *c06Suite, rng *kc.Rng) {
+	q := s.q
+	su := s.suite
+	fail := func(key, what string, rep map[string]string) {
+		rep["suite"] = s.name
+		c.Violation("pairing-history:"+s.name+":"+key, s.name+": "+what, rep)
+	}
+	for it := 0; it < c.N(6, 40); it++ {
+		a, b2, k := pvNonzero(rng, q), pvNonzero(rng, q), pvNonzero(rng, q)
+		rep := map[string]string{"a": kc.HexN(a), "b": kc.HexN(b2), "k": kc.HexN(k)}
+		res := kc.Recover(func() string {
+			P := blsMulBase(s.g1, q, a)
+			Q := blsMulBase(s.g2, q, b2)
+			e1 := su.Pair(P, Q)
+			e1b := blsPBsafe(e1)
+			// the G2 object is updated in place, then paired again
+			Q.Mul(blsScalar(s.g2, q, k), Q)
+			e2 := su.Pair(P, Q)
+			want2 := s.gt.Point().Mul(blsScalar(s.gt, q, k), e1)
+			if !e2.Equal(want2) || !e2.Equal(su.Pair(P.Clone(), Q.Clone())) {
+				return "Pair(P, Q) after Q was updated in place is not e(P,Q)^k"
+			}
+			if !su.ValidatePairing(P, Q, blsMulBase(s.g1, q, new(big.Int).Mod(new(big.Int).Mul(a, k), q)), blsMulBase(s.g2, q, b2)) {
+				return "ValidatePairing disagrees with Pair after Q was updated in place"
+			}
+			// the G1 object is updated in place
+			P.Add(P, P)
+			e3 := su.Pair(P, Q)
+			if !e3.Equal(s.gt.Point().Add(e2, e2)) {
+				return "Pair(P, Q) after P was doubled in place is not e(P,Q)^2"
+			}
+			if string(blsPBsafe(e1)) != string(e1b) {
+				return "an earlier pairing result changed when the operands were reused"
+			}
+			// results are values: use one as an accumulator, pair again
+			for _, O := range []func() (kyber.Point, kyber.Point){
+				func() (kyber.Point, kyber.Point) { return s.g1.Point().Null(), blsMulBase(s.g2, q, b2) },
+				func() (kyber.Point, kyber.Point) { return blsMulBase(s.g1, q, a), s.g2.Point().Null() },
+				func() (kyber.Point, kyber.Point) { return blsMulBase(s.g1, q, a), blsMulBase(s.g2, q, b2) },
+			} {
+				x, y := O()
+				acc := su.Pair(x, y)
+				first := blsPBsafe(acc)
+				acc.Add(acc, e2)
+				acc.Neg(acc)
+				x2, y2 := O()
+				again := su.Pair(x2, y2)
+				if string(blsPBsafe(again)) != string(first) {
+					return "a pairing result used as an accumulator changes what a later Pair of the same operands returns"
+				}
+			}
+			return ""
+		})
+		c.Eval(1)
+		c.CountKind(s.name + ":history")
+		c.Nontrivial(fmt.Sprintf("hist|%s|%s|%s|%s", s.name, a, b2, k))
+		if res == "panic" {
+			fail("panic", "panic when operand objects are reused across pairings", rep)
+		} else if res != "" {
+			fail("value", res, rep)
+		}
+	}
+}
+
 func c06Run(c *kc.Ctx, s *c06Suite, rng *kc.Rng, b *blsBatch) {
+	c06Histories(c, s, rng.Fork("histories"))
 	q, qh := s.q, kc.HexN(s.q)
 	su := s.suite
 	n := c.N(120, 2000)
